@@ -6,6 +6,7 @@ import (
 	"fmt"
 	"sync/atomic"
 	"testing"
+	"time"
 
 	"github.com/boombuler/barcode/utils"
 	"pgregory.net/rapid"
@@ -205,19 +206,37 @@ func checkPoly(t TB, c PolyCase) {
 	rf := ref.GF2{Poly: sp.PP, Size: sp.Size}
 	gf := utils.NewGaloisField(sp.PP, sp.Size, 1)
 	cp := func(v []int) []int { return append([]int(nil), v...) }
-	var sum, prod, mono, q, r []int
+	var sum, prod, mono, q, r, libBack, selfSum []int
+	var sumDeg, rDeg int
+	var sumZero, rZero bool
 	bZero := ref.AllZero(c.B)
 	if pv := try(func() {
 		pa, pb := utils.NewGFPoly(gf, cp(c.A)), utils.NewGFPoly(gf, cp(c.B))
-		sum = cp(pa.AddOrSubstract(pb).Coefficients)
+		ps := pa.AddOrSubstract(pb)
+		sum = cp(ps.Coefficients)
 		prod = cp(pa.Multiply(pb).Coefficients)
 		mono = cp(pa.MultByMonominal(c.Deg, c.Coef).Coefficients)
+		selfSum = cp(pa.AddOrSubstract(pa).Coefficients)
+		// results are polynomials: the library's own operations must accept them
+		sumDeg, sumZero = ps.Degree(), ps.Zero()
+		_ = ps.GetCoefficient(0)
+		_ = ps.AddOrSubstract(pb).Multiply(pa)
 		if !bZero {
 			qq, rr := pa.Divide(pb)
 			q, r = cp(qq.Coefficients), cp(rr.Coefficients)
+			rDeg, rZero = rr.Degree(), rr.Zero()
+			_ = rr.GetCoefficient(0)
+			libBack = cp(qq.Multiply(pb).AddOrSubstract(rr).Coefficients) // the statement, evaluated by the library itself
 		}
 	}); pv != nil {
 		failf(t, "C17", "gf-poly", c, "%v", pv)
+	}
+	wantSum := ref.Norm(rf.PolyAdd(c.A, c.B))
+	if len(sum) == 0 || sumDeg != len(wantSum)-1 || sumZero != ref.AllZero(wantSum) {
+		failf(t, "C17", "gf-poly", c, "AddOrSubstract result has %d coefficients, Degree()=%d, Zero()=%v; the sum is %v", len(sum), sumDeg, sumZero, wantSum)
+	}
+	if !eqPoly(selfSum, []int{0}) || len(selfSum) == 0 {
+		failf(t, "C17", "gf-poly", c, "p.AddOrSubstract(p)=%v, want the zero polynomial", selfSum)
 	}
 	if !eqPoly(sum, rf.PolyAdd(c.A, c.B)) {
 		failf(t, "C17", "gf-poly", c, "AddOrSubstract=%v want %v", sum, ref.Norm(rf.PolyAdd(c.A, c.B)))
@@ -234,6 +253,12 @@ func checkPoly(t TB, c PolyCase) {
 		back := rf.PolyAdd(rf.PolyMul(q, c.B), r)
 		if !eqPoly(back, c.A) {
 			failf(t, "C17", "gf-poly", c, "Divide: q=%v r=%v but q*d+r=%v != dividend %v", q, r, ref.Norm(back), ref.Norm(c.A))
+		}
+		if !eqPoly(libBack, c.A) || len(r) == 0 || len(q) == 0 {
+			failf(t, "C17", "gf-poly", c, "Divide: q=%v r=%v; q.Multiply(d).AddOrSubstract(r) = %v != dividend %v", q, r, libBack, ref.Norm(c.A))
+		}
+		if wantR := ref.Norm(r); rDeg != len(wantR)-1 || rZero != ref.AllZero(wantR) {
+			failf(t, "C17", "gf-poly", c, "Divide: remainder %v reports Degree()=%d Zero()=%v", r, rDeg, rZero)
 		}
 		rn, bn := ref.Norm(r), ref.Norm(c.B)
 		if !(len(rn) < len(bn) || (len(rn) == 1 && rn[0] == 0)) {
@@ -295,7 +320,16 @@ func checkRS(t TB, c RSCase) (degOrder string) {
 		}
 		data := append([]int(nil), call.Data...)
 		var got []int
-		if pv := try(func() { got = enc.Encode(data, call.N) }); pv != nil {
+		var pv any
+		if !withWatchdogFor(20*time.Second, func() { pv = try(func() { got = enc.Encode(data, call.N) }) }) {
+			failf(t, "C17", "rs-history", c, "call %d Encode(len %d, %d) did not return within 20 s (it normally takes microseconds): the encoder is blocked after the earlier requests", i, len(call.Data), call.N)
+		}
+		if call.N < 1 || call.N > sp.Size-1 {
+			// not a Reed-Solomon code of this field (more check symbols than non-zero elements, or none): whatever
+			// this request does, panic included, it is only here as an EARLIER request for the calls that follow
+			continue
+		}
+		if pv != nil {
 			failf(t, "C17", "rs-history", c, "call %d Encode(len %d, %d): %v", i, len(call.Data), call.N, pv)
 		}
 		for j := range data {
@@ -329,6 +363,87 @@ func checkRS(t TB, c RSCase) (degOrder string) {
 		return "descending"
 	}
 	return "mixed"
+}
+
+// forceZeroChecks changes the last len(pos) data symbols so that the reference check symbols are zero at the
+// positions pos (0 = first check symbol). Check symbols depend linearly on the data, so this is a small linear
+// system over the field, solved with the reference arithmetic only. Returns false (data untouched) if the system
+// is singular or the data is too short. Purpose: check-symbol vectors with leading / trailing / inner zeros are
+// a 1-in-size^z event for random data, but exactly where remainder handling (stripped leading zeros) goes wrong.
+func forceZeroChecks(rf ref.GF2, data []int, n, base int, pos []int) bool {
+	z := len(pos)
+	if z == 0 || z > len(data) || z > n {
+		return false
+	}
+	g := rf.Generator(n, base)
+	r := rf.RSRemainder(data, g)
+	m := make([][]int, z) // augmented matrix z x (z+1)
+	for i := range m {
+		m[i] = make([]int, z+1)
+		m[i][z] = r[pos[i]]
+	}
+	for j := 0; j < z; j++ {
+		unit := make([]int, len(data))
+		unit[len(data)-1-j] = 1
+		v := rf.RSRemainder(unit, g)
+		for i := range m {
+			m[i][j] = v[pos[i]]
+		}
+	}
+	for col := 0; col < z; col++ {
+		piv := -1
+		for row := col; row < z; row++ {
+			if m[row][col] != 0 {
+				piv = row
+				break
+			}
+		}
+		if piv < 0 {
+			return false
+		}
+		m[col], m[piv] = m[piv], m[col]
+		inv := rf.Inv(m[col][col])
+		for k := col; k <= z; k++ {
+			m[col][k] = rf.Mul(m[col][k], inv)
+		}
+		for row := 0; row < z; row++ {
+			if row != col && m[row][col] != 0 {
+				f := m[row][col]
+				for k := col; k <= z; k++ {
+					m[row][k] ^= rf.Mul(f, m[col][k])
+				}
+			}
+		}
+	}
+	for j := 0; j < z; j++ {
+		data[len(data)-1-j] ^= m[j][z] // characteristic 2: adding the solution cancels the chosen symbols
+	}
+	return true
+}
+
+// zeroPositions: which check symbols to force to zero, by kind: 0 leading, 1 trailing, 2 first and last, 3 inner run.
+func zeroPositions(kind, z, n int) []int {
+	var pos []int
+	switch kind {
+	case 0:
+		for i := 0; i < z; i++ {
+			pos = append(pos, i)
+		}
+	case 1:
+		for i := 0; i < z; i++ {
+			pos = append(pos, n-1-i)
+		}
+	case 2:
+		pos = []int{0}
+		if n > 1 {
+			pos = append(pos, n-1)
+		}
+	default:
+		for i := 0; i < z && n/2+i < n; i++ {
+			pos = append(pos, n/2+i)
+		}
+	}
+	return pos
 }
 
 func genRSCase(t *rapid.T) RSCase {
@@ -375,7 +490,22 @@ func genRSCase(t *rapid.T) RSCase {
 			}
 			data[j] = rapid.IntRange(0, size-1).Draw(t, "d")
 		}
+		if zk >= 2 && zk <= 4 && dl > 0 { // check symbols with forced zeros (leading: zk 2,3)
+			z := rapid.IntRange(1, min(4, min(dl, n))).Draw(t, "z")
+			kind := 0
+			if zk == 4 {
+				kind = rapid.IntRange(1, 3).Draw(t, "zkind")
+			}
+			sp := gfSpecs[c.Field]
+			forceZeroChecks(ref.GF2{Poly: sp.PP, Size: sp.Size}, data, n, c.Base, zeroPositions(kind, z, n))
+		}
 		c.Calls = append(c.Calls, RSCall{Data: data, N: n})
+		if rapid.IntRange(0, 11).Draw(t, "outofdomain") == 0 {
+			// an impossible request in between (more check symbols than the field has non-zero elements, or a
+			// negative count): its own outcome is not judged, the requests after it are
+			bad := rapid.SampledFrom([]int{size, size + 1, size + 7, 2 * size, -1}).Draw(t, "badn")
+			c.Calls = append(c.Calls, RSCall{Data: []int{1, 2 % size, 3 % size}, N: bad})
+		}
 	}
 	return c
 }
@@ -405,6 +535,26 @@ func TestC17Rapid(t *testing.T) {
 			size := gfSpecs[fi].Size
 			c := PolyCase{Field: fi, A: genPoly(rt, size, "a"), B: genPoly(rt, size, "b"),
 				Deg: rapid.IntRange(0, 40).Draw(rt, "deg"), Coef: rapid.IntRange(0, size-1).Draw(rt, "coef")}
+			switch rapid.IntRange(0, 7).Draw(rt, "related") {
+			case 0: // dividend = (drawn polynomial) x divisor: the division is exact, every partial sum cancels at the end
+				rf := ref.GF2{Poly: gfSpecs[fi].PP, Size: size}
+				c.A = rf.PolyMul(c.A, c.B)
+				st.Class("poly: exact multiple of the divisor")
+			case 1: // exact multiple plus a remainder of lower degree
+				rf := ref.GF2{Poly: gfSpecs[fi].PP, Size: size}
+				rem := genPoly(rt, size, "rem")
+				if nb := len(ref.Norm(c.B)); len(rem) >= nb {
+					rem = rem[len(rem)-nb+1:]
+				}
+				c.A = rf.PolyAdd(rf.PolyMul(c.A, c.B), rem)
+				st.Class("poly: multiple of the divisor plus a short remainder")
+			case 2: // equal operands / equal leading parts (sums that cancel completely or partly)
+				c.B = append([]int(nil), c.A...)
+				if k := rapid.IntRange(0, len(c.B)).Draw(rt, "keep"); k < len(c.B) {
+					c.B[k] = (c.B[k] + 1) % size
+				}
+				st.Class("poly: operands equal up to one coefficient")
+			}
 			checkPoly(rt, c)
 			st.Class("poly")
 			if !ref.AllZero(c.A) && !ref.AllZero(c.B) {
@@ -419,8 +569,29 @@ func TestC17Rapid(t *testing.T) {
 		default:
 			c := genRSCase(rt)
 			order := checkRS(rt, c)
+			for _, call := range c.Calls {
+				if call.N < 1 || call.N > gfSpecs[c.Field].Size-1 {
+					st.Class("rs-history containing an impossible request (outcome not judged, later calls are)")
+					break
+				}
+			}
 			st.Class("rs-history " + order)
 			st.Class("rs " + gfSpecs[c.Field].Name)
+			{
+				sp := gfSpecs[c.Field]
+				rf := ref.GF2{Poly: sp.PP, Size: sp.Size}
+				for _, call := range c.Calls {
+					if call.N >= 3 && !ref.AllZero(call.Data) {
+						w := rf.RSRemainder(call.Data, rf.Generator(call.N, c.Base))
+						if w[0] == 0 && w[1] == 0 {
+							st.Class("rs: non-zero data whose check symbols start with >= 2 zeros")
+						}
+						if w[len(w)-1] == 0 {
+							st.Class("rs: non-zero data whose last check symbol is zero")
+						}
+					}
+				}
+			}
 			if len(c.Calls) >= 2 {
 				st.NonTrivial(H("rs", fmt.Sprint(c)))
 			}
@@ -448,6 +619,18 @@ func TestC17RSDegrees(t *testing.T) {
 			asc := RSCase{Field: fi, Base: base}
 			for n := 1; n <= maxN; n += step {
 				asc.Calls = append(asc.Calls, RSCall{Data: []int{1, n % sp.Size, 0, (n * 7) % sp.Size, sp.Size - 1}, N: n})
+				// the same degree with check symbols that start with 1..3 zeros, end with a zero, or have inner zeros
+				rf := ref.GF2{Poly: sp.PP, Size: sp.Size}
+				for v := 0; v < 5; v++ {
+					d := []int{1 + n%(sp.Size-1), (n * 5) % sp.Size, 3, (n * 11) % sp.Size, sp.Size - 2, 7 % sp.Size}
+					kind, z := 0, v+1
+					if v >= 3 {
+						kind, z = v-2, 2
+					}
+					if forceZeroChecks(rf, d, n, base, zeroPositions(kind, min(z, n), n)) {
+						asc.Calls = append(asc.Calls, RSCall{Data: d, N: n})
+					}
+				}
 			}
 			desc := RSCase{Field: fi, Base: base}
 			for i := len(asc.Calls) - 1; i >= 0; i-- {
